@@ -106,6 +106,10 @@ func RangesFromExpression(str string) (ranges Ranges, err error) {
 			if err != nil {
 				return
 			}
+			if begin > end {
+				err = errors.New("bad format for roleClass ports range: begin is greater than end")
+				return
+			}
 			r = append(r, Range{Begin: begin, End: end})
 			continue
 		} else {
